@@ -170,8 +170,14 @@ def run(ctx):
         return bad, (hk.get("v") if hk.get("r") == "ok" else {"r": hk.get("r")}), [r.get("v") if r.get("r") == "ok" else {"r": r.get("r")} for r in rep[-3:]], lines
     for l in auto_langs:
         other = rng.choice([x for x in langs if x.split("-")[0] != l.split("-")[0]])
-        direct = by_route([("Language", l)])
-        for route in ([("Language", "Auto"), ("LanguageAuto", l)], [("Language", "Auto"), ("LanguageAuto", other), ("LanguageAuto", l)], [("Language", other), ("Language", "Auto"), ("LanguageAuto", l)]):
+        direct_plain = by_route([("Language", l)])
+        # ... and a speech style chosen before or after the host gave the language is the style of THAT language
+        st, st0 = rng.choice(sty), rng.choice(sty)
+        direct_style = by_route([("Language", l), ("SpeechStyle", st)])
+        A, L, S = ("Language", "Auto"), ("LanguageAuto", l), ("SpeechStyle", st)
+        for route in ([A, L], [A, ("LanguageAuto", other), L], [("Language", other), A, L],
+                      [A, L, S], [S, A, L], [A, ("LanguageAuto", other), S, L], [A, L, ("SpeechStyle", st0), S]):
+            direct = direct_style if S in route else direct_plain
             got = by_route(route)
             n_auto += 1
             if direct[0]:
